@@ -6,7 +6,7 @@
    handlers are filed under negative keys), and reaches the task loop otherwise. *)
 From FMP Require Import Base.Bytes Base.Lts Model.Events Model.Skeleton Model.Props Model.Receiver
      Proofs.ReceiverProofs Proofs.SkeletonProofs.
-From FMP Require Import Model.Paths Proofs.PathProofs.
+From FMP Require Import Model.Paths Proofs.PathsC09.
 From FMP Require Import Model.CodecCfg Proofs.CodecCfgProofs.
 Open Scope Z_scope.
 
